@@ -2008,3 +2008,5 @@ mod tests {
 pub mod verif_c14;
 #[cfg(feature = "verif-hooks")]
 pub mod verif_c03;
+#[cfg(feature = "verif-hooks")]
+pub mod verif_c06;
